@@ -138,9 +138,19 @@ def body(ctx):
     traces, meta = [], []
     nkeys = 2 if ctx.quick else 20
     try:
-        for ki in range(nkeys):
+        import json as _json
+        boundary = sorted(_json.load(open(os.path.join(os.path.dirname(os.path.dirname(os.path.abspath(__file__))), 'data', 'boundary_keys.json'))).items())
+        ctx.extra['boundary_keys'] = {k: dict(rr_bits=v['rr_bits'], n0inv=hex(v['n0inv'])) for k, v in boundary}
+        for ki in range(nkeys + len(boundary)):
             path = os.path.join(tmp, 'key%d' % ki)
-            keygen.keygen(path)
+            if ki < nkeys:
+                keygen.keygen(path)
+            else:
+                # a stored key whose Montgomery parameters have a leading zero byte (rr = 2^4096 mod n below 2^2040, about one key in 256;
+                # n0inv below 2^24): the library derives the public key file and blob from the private key
+                with open(path, 'w') as f_:
+                    f_.write(boundary[ki - nkeys][1]['pem'])
+                keygen.write_public_keyfile(path, path + '.pub')
             n, e = rsaproj.public_numbers_of_pem(path)
             # the public key file written by keygen
             pub = open(path + '.pub', 'rb').read()
